@@ -180,7 +180,8 @@ def find_arm(src, pattern, start=0, end=None):
     """Find a match arm whose pattern text (regex, must be followed by `=>`) occurs
     exactly once in src[start:end]. Returns (body_text, is_block, span)."""
     end = len(src) if end is None else end
-    pat = re.compile(r"(?m)^[ \t]*(?:\|\s*)?" + pattern + r"\s*=>\s*")
+    # the wanted alternative may stand alone or among other `|` alternatives on the same line
+    pat = re.compile(r"(?m)^[ \t]*(?:[^=\n]*?\|\s*)?" + pattern + r"(?:\s*\|[^=\n]*?)?\s*=>\s*")
     ms = list(pat.finditer(src, start, end))
     if len(ms) != 1:
         raise AnchorLost(f"arm {pattern!r}: {len(ms)} matches")
